@@ -5,6 +5,7 @@ import Spake2Verif.Proofs.BytesLemmas
 Property C15 (util.py codecs): `size_bits`, `size_bytes`, `number_to_bytes`, `bytes_to_number`.
 The arithmetic kernels are the machine-generated `Gen.Util.*`; core Lean only.
 -/
+set_option linter.unusedSimpArgs false
 namespace Spake2Model
 open Gen
 
@@ -85,10 +86,13 @@ theorem ceilDiv8 {a : Int} : Py.ceilDiv a 8 = (a + 7) / 8 := by
   rw [Int.fdiv_eq_ediv_of_nonneg _ (by omega)]
   omega
 
+theorem fdiv8 {a : Int} : Int.fdiv a 8 = a / 8 := Int.fdiv_eq_ediv_of_nonneg _ (by omega)
+
+/-- whether `size_bytes` rounds up with `int(math.ceil(bits / 8))` or with `(bits + 7) // 8` -/
 theorem size_bytes_eq {m : Int} (h : 0 ≤ m) :
     Util.size_bytes m = (((sizeBits m + 7) / 8 : Nat) : Int) := by
   unfold Util.size_bytes
-  rw [ceilDiv8, size_bits_eq h]
+  simp only [ceilDiv8, fdiv8, size_bits_eq h]
   omega
 
 theorem sizeBytes_eq {m : Int} (h : 0 ≤ m) : sizeBytes m = (sizeBits m + 7) / 8 := by
